@@ -117,3 +117,43 @@ def probe_sets(tier):
 def run_blocks(tier, chunk=40):
     n = len(run_sets(tier))
     return [("runs", {"a0": i, "a1": min(n, i + chunk)}) for i in range(0, n, chunk)]
+
+
+# ----------------------------------------------------------------------------- block-size boundaries
+# Structured sets whose lengths sit on either side of powers of two: what a blocked / SIMD / galloping rewrite of a merge
+# loop (process 16/32/64 elements at a time, then a scalar tail) gets wrong.
+BLOCK_LENS = {
+    "quick": [15, 16, 17, 31, 32, 33, 63, 64, 65, 127, 128, 129],
+    "thorough": [15, 16, 17, 31, 32, 33, 63, 64, 65, 127, 128, 129, 255, 256, 257, 511, 512, 513, 1023, 1024, 1025],
+}
+BLOCK_PATTERNS = ["dense", "evens", "odds", "thirds", "shifted", "twoblocks"]
+
+
+def expand(desc):
+    """{'pat':..., 'n':...} -> sorted list of n values (a plain list is returned unchanged)."""
+    if isinstance(desc, list):
+        return desc
+    pat, n = desc["pat"], desc["n"]
+    if pat == "dense":
+        return list(range(n))
+    if pat == "evens":
+        return list(range(0, 2 * n, 2))
+    if pat == "odds":
+        return list(range(1, 2 * n, 2))
+    if pat == "thirds":
+        return list(range(0, 3 * n, 3))
+    if pat == "shifted":
+        return list(range(n // 2, n // 2 + n))
+    if pat == "twoblocks":
+        h = n // 2
+        return list(range(h)) + list(range(4 * n, 4 * n + (n - h)))
+    raise KeyError(pat)
+
+
+def block_descs(tier):
+    return [{"pat": p, "n": n} for n in BLOCK_LENS[tier] for p in BLOCK_PATTERNS]
+
+
+def block_blocks(tier, chunk=6):
+    n = len(block_descs(tier))
+    return [("blocked", {"a0": i, "a1": min(n, i + chunk)}) for i in range(0, n, chunk)]
